@@ -249,6 +249,48 @@ def program_correspondences(tier, rng):
             continue
     return [Corr("tt_disassemble", dcases, impl_dis, oracle=oracle_dis), Corr("tt_assemble", acases, impl_asm, oracle=oracle_asm)]
 
+def ebdt_font(rng):
+    """a corpus TrueType font given embedded bitmaps in the bit-aligned and byte-aligned EBDT image formats (2, 7 and 1, 6; small
+    and big metrics), glyph sizes 1..17 in both directions (bit counts that are and are not multiples of 8), bit depths 1/2/4. The
+    image bytes are packed HERE, so the source does not depend on the library's row packing."""
+    from fontTools.ttLib import TTFont
+    src = corpus.find("TestTTF.ttf")
+    font = TTFont(src); order = font.getGlyphOrder()
+    depth = rng.choice([1, 1, 2, 4])
+    line = ('<sbitLineMetrics direction="%s"><ascender value="8"/><descender value="-2"/><widthMax value="17"/><caretSlopeNumerator value="0"/>'
+            '<caretSlopeDenominator value="0"/><caretOffset value="0"/><minOriginSB value="0"/><minAdvanceSB value="0"/><maxBeforeBL value="0"/>'
+            '<minAfterBL value="0"/><pad1 value="0"/><pad2 value="0"/></sbitLineMetrics>')
+    fmt = rng.choice([2, 2, 7, 1, 6])
+    n = rng.randint(2, 5); ids = list(range(1, 1 + n))
+    glyphs = []
+    for gid in ids:
+        w = rng.choice([1, 2, 3, 4, 5, 7, 8, 9, 11, 12, 13, 16, 17]); h = rng.choice([1, 2, 3, 4, 5, 6, 7, 8, 9])
+        rows = [[rng.below(1 << depth) for _ in range(w)] for _ in range(h)]
+        for r_ in rows: r_[-1] = (1 << depth) - 1                       # last column set: trailing bits matter
+        rows[-1] = [(1 << depth) - 1] * w
+        if fmt in (2, 7):
+            bits = "".join(format(v, "0%db" % depth) for r_ in rows for v in r_); bits += "0" * (-len(bits) % 8)
+        else:
+            bits = ""
+            for r_ in rows:
+                rb = "".join(format(v, "0%db" % depth) for v in r_); bits += rb + "0" * (-len(rb) % 8)
+        raw = bytes(int(bits[i:i + 8], 2) for i in range(0, len(bits), 8))
+        if fmt in (1, 2):
+            met = ('<SmallGlyphMetrics><height value="%d"/><width value="%d"/><BearingX value="0"/><BearingY value="%d"/><Advance value="%d"/></SmallGlyphMetrics>' % (h, w, h, w + 1))
+        else:
+            met = ('<BigGlyphMetrics><height value="%d"/><width value="%d"/><horiBearingX value="0"/><horiBearingY value="%d"/><horiAdvance value="%d"/>'
+                   '<vertBearingX value="0"/><vertBearingY value="0"/><vertAdvance value="%d"/></BigGlyphMetrics>' % (h, w, h, w + 1, h + 1))
+        glyphs.append('<ebdt_bitmap_format_%d name="%s">%s<rawimagedata>%s</rawimagedata></ebdt_bitmap_format_%d>' % (fmt, order[gid], met, raw.hex(), fmt))
+    locs = "".join('<glyphLoc id="%d" name="%s"/>' % (g, order[g]) for g in ids)
+    xml = ('<?xml version="1.0" encoding="UTF-8"?><ttFont><EBLC><header version="2.0"/><strike index="0"><bitmapSizeTable>%s%s<colorRef value="0"/>'
+           '<startGlyphIndex value="%d"/><endGlyphIndex value="%d"/><ppemX value="10"/><ppemY value="10"/><bitDepth value="%d"/><flags value="1"/></bitmapSizeTable>'
+           '<eblc_index_sub_table_1 imageFormat="%d" firstGlyphIndex="%d" lastGlyphIndex="%d">%s</eblc_index_sub_table_1></strike></EBLC>'
+           '<EBDT><header version="2.0"/><strikedata index="0">%s</strikedata></EBDT></ttFont>') % (
+               line % "hori", line % "vert", ids[0], ids[-1], depth, fmt, ids[0], ids[-1], locs, "".join(glyphs))
+    font.importXML(io.BytesIO(xml.encode("utf-8")))
+    b = io.BytesIO(); font.save(b)
+    return "generated-ebdt(format %d, depth %d, %d glyphs)" % (fmt, depth, n), b.getvalue()
+
 def sweeps(tier, rng):
     from fontTools.ttLib import TTFont
     bins = [p for p in corpus.binaries((".ttf", ".otf")) if os.path.getsize(p) < 200000]
@@ -269,6 +311,9 @@ def sweeps(tier, rng):
         for name, d in genfonts.all_generated(): yield name, d
         try: yield "generated-instructions-and-colliding-names", instr_font()
         except Exception as e: yield "generated-instructions(build failed %r)" % (e,), None
+        for _k in range(3 if tier == "quick" else 40):
+            try: yield ebdt_font(rng)
+            except Exception as e: yield "generated-ebdt(build failed %r)" % (e,), None
         # edited corpus fonts: point flags that no outline reader shows (OVERLAP_SIMPLE on arbitrary points), CFF dictionary reals of
         # small and large magnitude (printed with an exponent)
         ttfs = [p for p in bins if p.endswith(".ttf")]; otfs = [p for p in bins if p.endswith(".otf")]
@@ -341,6 +386,7 @@ def sweeps(tier, rng):
     def _text(font):
         out = {}
         from fontTools.misc.xmlWriter import XMLWriter
+        if not hasattr(font, "bitmapGlyphDataFormat"): font.bitmapGlyphDataFormat = "raw"     # what saveXML sets before any toXML runs
         for t in font.keys():
             if t == "GlyphOrder": continue
             b = io.BytesIO(); w = XMLWriter(b); font[t].toXML(w, font); w.close()
@@ -426,7 +472,40 @@ def sweeps(tier, rng):
                     yield ((label, str(o)), bad)
         finally:
             shutil.rmtree(tmp, ignore_errors=True)
-    return [Sweep("ttx-roundtrip", run_roundtrip)]
+    def run_program_history():
+        """one Program object through a history of fromBytecode / fromAssembly / getAssembly / getBytecode calls: after every step
+        the bytecode it reports, and the bytecode its assembly (what toXML would write) assembles to, are the program set LAST"""
+        from fontTools.ttLib.tables.ttProgram import Program
+        def rprog():
+            out_ = []
+            for _ in range(rng.randint(1, 6)):
+                k = rng.below(4)
+                if k == 0: n_ = rng.randint(1, 8); out_ += [0xB0 + n_ - 1] + [rng.randint(0, 255) for _ in range(n_)]
+                elif k == 1: n_ = rng.randint(1, 3); out_ += [0xB8 + n_ - 1] + [rng.randint(0, 255) for _ in range(2 * n_)]
+                elif k == 2: n_ = rng.randint(1, 12); out_ += [0x40, n_] + [rng.randint(0, 255) for _ in range(n_)]
+                else: out_ += [rng.choice([0x00, 0x01, 0x20, 0x21, 0x23, 0x2F, 0x60, 0x61, 0x76, 0x8F, 0xA3])]
+            return bytes(out_)
+        for i in range(N(tier, 150, 3000)):
+            p = Program(); expected = None; hist = []; bad = None
+            for step in range(rng.randint(2, 7)):
+                k = rng.below(4) if expected is not None else rng.below(2)
+                try:
+                    if k == 0:
+                        b = rprog(); p.fromBytecode(b); expected = b; hist.append("fromBytecode(%s)" % b.hex())
+                    elif k == 1:
+                        b = rprog(); q = Program(); q.fromBytecode(b); p.fromAssembly(q.getAssembly()); expected = b; hist.append("fromAssembly(<%s>)" % b.hex())
+                    elif k == 2:
+                        asm = p.getAssembly(); hist.append("getAssembly()")
+                        q = Program(); q.fromAssembly(asm)
+                        if bytes(q.getBytecode()) != expected: bad = "after %s the assembly is that of %s, the program is %s" % (", ".join(hist), bytes(q.getBytecode()).hex(), expected.hex())
+                    else:
+                        got = bytes(p.getBytecode()); hist.append("getBytecode()")
+                        if got != expected: bad = "after %s getBytecode() gives %s, the program is %s" % (", ".join(hist), got.hex(), expected.hex())
+                except Exception as e:
+                    bad = "after %s: %r" % (", ".join(hist), e)
+                if bad: break
+            yield (("program-history", i, tuple(hist) if bad else ()), bad)
+    return [Sweep("ttx-roundtrip", run_roundtrip), Sweep("program-history", run_program_history)]
 
 def classify(sweep, case, failure):
     if str(failure).startswith("F11:"): return "F11"
